@@ -359,6 +359,37 @@ def oracle_c05(ctx: Ctx, pairs):
                             {"a": show(a), "b": show(b)}, expected=full, observed=got)
 
 
+def oracle_c05_gaps(ctx: Ctx):
+    """the public PEP 440 order is not dense: v and its immediate successor (v.post0.dev0 for a version without post/dev segment,
+    v.post(N+1).dev0 after v.postN) have no version between them, so `>v` and `<succ` have no common member - read over versions,
+    ==, is_empty() and is_any() must treat the gap as empty (recorded finding adjacent-gap)"""
+    from packaging.version import Version
+    from dep_logic.specifiers import parse_version_specifier as parse
+    fam = [("1.0", "1.0.post0.dev0"), ("2.1", "2.1.post0.dev0"), ("1!3.0", "1!3.0.post0.dev0"), ("1.0a1", "1.0a1.post0.dev0"),
+           ("1.0rc2", "1.0rc2.post0.dev0"), ("1.0.post3", "1.0.post4.dev0"), ("0", "0.post0.dev0"), ("3.9", "3.9.post0.dev0")]
+    grid = [Version(x) for x in sg.GAP_GRID]
+    for lo, hi in fam:
+        vlo, vhi = Version(lo), Version(hi)
+        between = [str(v) for v in grid if vlo < v < vhi]
+        ctx.count("oracle-C05-gaps", 3, nontrivial_key=("gap", lo))
+        if between:
+            ctx.finding(f"gap-grid|{lo}", "the harness' successor table is wrong: a version lies in the supposed gap", {"lo": lo, "hi": hi}, [], between)
+            continue
+        try:
+            a, b = parse(f">{lo}"), parse(f"<{hi}")
+            if (a & b).is_empty() is not True:
+                ctx.finding(f"adjacent-gap|is_empty|>{lo} & <{hi}", "(a & b).is_empty() is False although no version satisfies both (adjacent versions)",
+                            {"a": f">{lo}", "b": f"<{hi}"}, expected=True, observed=False)
+            if (parse(f">{lo}") == parse(f">={hi}")) is not True:
+                ctx.finding(f"adjacent-gap|eq|>{lo} vs >={hi}", "two results admitting the same versions do not compare equal (adjacent versions)",
+                            {"a": f">{lo}", "b": f">={hi}"}, expected=True, observed=False)
+            if (parse(f"<={lo}") | parse(f">={hi}")).is_any() is not True:
+                ctx.finding(f"adjacent-gap|is_any|<={lo} | >={hi}", "(a | b).is_any() is False although every version satisfies one of them (adjacent versions)",
+                            {"a": f"<={lo}", "b": f">={hi}"}, expected=True, observed=False)
+        except Exception as e:  # noqa: BLE001
+            ctx.finding(f"gap-raise|{lo}", f"gap probe raised {type(e).__name__}", {"lo": lo, "hi": hi}, None, repr(e))
+
+
 LAWS = [
     ("and-comm", lambda a, b, c: (a & b, b & a)),
     ("or-comm", lambda a, b, c: (a | b, b | a)),
@@ -472,13 +503,14 @@ def run_c01(ctx: Ctx):
 
 def run_c05(ctx: Ctx):
     ctx.trusted_base = BASE_TRUST
-    thms = ["C05_closed", "C05_unique", "C05_empty", "C05_any", "C05_post_init"]
+    thms = ["C05_closed", "C05_unique", "C05_empty", "C05_any", "C05_post_init", "C05_versions", "C05_gap_refuted"]
     proof_step(ctx, "Props/C05.v", thms, extra_targets=["Model/Corr.v"])
     n, _ = sizes(ctx)
     pairs = corpus_pairs() + spec_pairs(ctx, n, exhaustive=(ctx.tier == "thorough"))
     if not any(b["kind"] == "translation" for b in ctx.broken):
         stream_sgen(ctx, pairs, with_predicates=False)
     oracle_c05(ctx, pairs)
+    oracle_c05_gaps(ctx)
     ctx.coverage["rule"] = "as C01; every result is checked for canonical shape, == / is_empty / is_any against membership at probes realising every cut position"
     ctx.coverage["exhaustive"] = ctx.tier == "thorough"
 
